@@ -475,21 +475,24 @@ def runtime_shared_writes():
 def generate(write):
     import sly.yacc
 
-    util = parse(os.path.join(PKG, "utilities.py"))
-    facts = template_facts(util)
-    pb = parse(os.path.join(PKG, "input_parser", "parser_base.py"))
-    restart = find_fn(pb, "MCNP_Parser", "restart")
+    # every fact through `safe`: a file or function that is not where it was gives the value no theorem accepts
+    # (a failed obligation of C17 only), never an exception of the translator (which would stop every check)
+    def fn_of(path, cls, name):
+        return safe(lambda: find_fn(parse(path), cls, name), None)
+
+    facts = safe(lambda: template_facts(parse(os.path.join(PKG, "utilities.py"))), [])
+    pb_path = os.path.join(PKG, "input_parser", "parser_base.py")
+    restart = fn_of(pb_path, "MCNP_Parser", "restart")
     restart_clears = restart is not None and calls_method(restart, "self.log", "clear_queue")
-    parse_fn = find_fn(pb, "MCNP_Parser", "parse")
+    parse_fn = fn_of(pb_path, "MCNP_Parser", "parse")
     parse_checks_log = parse_fn is not None and any(
         isinstance(n, ast.Call) and ast.unparse(n) == "len(self.log)" for n in ast.walk(parse_fn)
     )
-    sly_tree = parse(sly.yacc.__file__)
-    sly_parse = find_fn(sly_tree, "Parser", "parse")
+    sly_parse = fn_of(sly.yacc.__file__, "Parser", "parse")
     sly_restarts = sly_parse is not None and calls_method(sly_parse, "self", "restart")
-    obj = find_fn(parse(os.path.join(PKG, "mcnp_object.py")), "MCNP_Object", "__init__")
+    obj = fn_of(os.path.join(PKG, "mcnp_object.py"), "MCNP_Object", "__init__")
     obj_restarts = obj is not None and restart_before_parse(obj, "parser")
-    ri = find_fn(parse(os.path.join(PKG, "input_parser", "mcnp_input.py")), "ReadInput", "__init__")
+    ri = fn_of(os.path.join(PKG, "input_parser", "mcnp_input.py"), "ReadInput", "__init__")
     ri_restarts = ri is not None and restart_before_parse(ri, "self._parser")
     # is the log one object for every parser class?  (class attribute of MCNP_Parser only)
     log_owners = [c for (_, c, a, _) in class_instances() if a == "log"]
@@ -519,7 +522,7 @@ def generate(write):
     body += f"-- ({'observed on a probe read' if observed is not None else 'not observable: read from the statements of read_input_syntax'})\n"
     body += f"def readerResetsQueue : Bool := {b(resets)}\n"
     body += "/-- input_syntax_reader.reading_queue is a mapping (one queue per key, e.g. per path) rather than one queue -/\n"
-    body += f"def queuePerPath : Bool := {b(queue_per_path())}\n"
+    body += f"def queuePerPath : Bool := {b(safe(queue_per_path, True))}\n"
     body += "/-- parser_base.MCNP_Parser.restart calls self.log.clear_queue() -/\n"
     body += f"def restartClearsLog : Bool := {b(restart_clears)}\n"
     body += "/-- sly.yacc.Parser.parse calls self.restart() (so every parse() starts with restart) -/\n"
